@@ -5,7 +5,7 @@
 import os, sys
 sys.path.insert(0, os.path.join(os.environ.get("AIOFTP_REPO", "/repo"), "src"))
 OBLIGATION = 'aioftp.server:Server.mlst#SEQ::PathConditions.__call__.<locals>.wrapper/call:Server.get_paths/pre:user-and-cwd-set'
-MODEL = {'user_present!11': False, 'restart_offset!10': 0, 'current_directory_done!16': True, 'u_cur_home!9': 'Empty(Seq(String))', 'current_directory_present!15': True, 'block_size!0': 1, 'logged_done!14': False, 'cwd!10': 'Empty(Seq(String))', 'logged_present!13': True}
+MODEL = {'u_cur_home!21': 'Empty(Seq(String))', 'logged_done!14': False, 'block_size!0': 1, 'current_directory_present!15': True, 'current_directory_done!16': True, 'restart_offset!10': 0, 'cwd!22': 'Empty(Seq(String))', 'user_present!11': False, 'logged_present!13': True}
 SOLVER_NOTE = ''
 
 print("obligation", OBLIGATION, "failed; no concrete failing input could be constructed automatically")
